@@ -51,6 +51,12 @@ func c09MockApp(ch *kit.Chain) func(ctx sdk.Context, channelVersion string, pack
 		case "WE":
 			write()
 			return ibcmock.MockFailAcknowledgement
+		case "WAE":
+			// writes state, writes an acknowledgement for this packet through the channel keeper (what an application reaches as
+			// its ICS4 wrapper), then fails: everything it wrote, the acknowledgement included, belongs to the discarded branch
+			write()
+			_ = ch.App.GetIBCKeeper().ChannelKeeper.WriteAcknowledgement(ctx, packet, ibcmock.MockAcknowledgement)
+			return ibcmock.MockFailAcknowledgement
 		case "A":
 			write()
 			return nil
@@ -64,7 +70,7 @@ func c09MockApp(ch *kit.Chain) func(ctx sdk.Context, channelVersion string, pack
 // the exact state diff that a failed receive keeps only the receipt (or ordered counter) and the error acknowledgement.
 func TestC09(t *testing.T) {
 	c := kit.NewCheck(t, "C09", "fault_enumeration",
-		"fault matrix = {mock app: success / error at once / write k=0..4 keys (+bank send) then error / write then async} x {UNORDERED, ORDERED} plus the transfer stack (rate-limit → forward → transfer) with {success, undecodable receiver, blocked receiver, receive disabled, bank send-restriction failing after the voucher mint, unparsable amount}; "+
+		"fault matrix = {mock app: success / error at once / write k=0..4 keys (+bank send) then error / write keys and an acknowledgement of its own then error / write then async} x {UNORDERED, ORDERED} plus the transfer stack (rate-limit → forward → transfer) with {success, undecodable receiver, blocked receiver, receive disabled, bank send-restriction failing after the voucher mint, unparsable amount}; "+
 			"one evaluation = send + receive with the oracle on the exact per-block state diff; distinct = distinct matrix cells; repeated with several amounts of pre-failure state")
 	defer c.Finish()
 	c.Assume("mock application of testing/simapp with injected OnRecvPacket; transfer stack as wired in testing/simapp; proof verification trusted")
@@ -99,7 +105,7 @@ func TestC09(t *testing.T) {
 	// ---- mock matrix
 	for rep := 0; rep < reps; rep++ {
 		for _, p := range []*ibctesting.Path{pu, po} {
-			for _, beh := range []string{"S", "E", "WE", "A"} {
+			for _, beh := range []string{"S", "E", "WE", "WAE", "A"} {
 				for k := 0; k <= 4; k++ {
 					if (beh == "E") && k > 0 {
 						continue
@@ -285,7 +291,7 @@ func c09Judge(c *kit.Check, b *kit.Chain, cell string, ro *kit.Outcome, pk chann
 		}
 	}
 	switch beh {
-	case "E", "WE":
+	case "E", "WE", "WAE":
 		c.Inc("error_ack_receives")
 		if len(app) != 0 {
 			c.Violate("C09|app-state-persisted-after-error-ack", fmt.Sprintf("%s: application state persisted after an error acknowledgement:%s", cell, diffS(app)), nil)
